@@ -2,7 +2,7 @@
 # usage: run_all.sh [tier] [seed ...]   - runs every check of MANIFEST.json; prints one line per (seed, property)
 TIER="${1:-quick}"; shift
 SEEDS="${@:-1}"
-cd /verif
+cd "$(dirname "$(readlink -f "$0")")"
 IDS=$(python3 -c "import json;print(' '.join(c['property_id'] for c in json.load(open('MANIFEST.json'))['checks']))")
 rc=0
 for s in $SEEDS; do
